@@ -90,17 +90,17 @@ Check agg_over_expression_correct :
 Print Assumptions agg_over_expression_correct.
 
 (* query_correct_plain_columns generalised to aggregates over expressions: plain-column keys, any
-   aggregates over the expression fragment, HAVING mentioning only plain aggregates (and COUNT( * ) only
-   when no COUNT over an expression is computed: the two share the name `count`, open class 9) *)
+   aggregates over the expression fragment, outside the open class 9 (HAVING mentions an aggregate over
+   an expression, or COUNT( * ) while a COUNT over an expression is computed: they share the name `count`) *)
 Theorem query_correct_expression_arguments :
   forall q t rs,
-    forallb is_plain (q_keys q) = true -> forallb ok_agg (q_aggs q) = true -> having_names_ok q ->
+    forallb is_plain (q_keys q) = true -> forallb ok_agg (q_aggs q) = true -> q_class q t = 0 ->
     q_int_sums q t = true ->
     spec_query q t = SRows rs -> model_query q t = MRows rs.
 Proof. exact Proof.AggQueryX3.query_correct_expression_arguments. Qed.
 Check query_correct_expression_arguments :
   forall q t rs,
-    forallb is_plain (q_keys q) = true -> forallb ok_agg (q_aggs q) = true -> having_names_ok q ->
+    forallb is_plain (q_keys q) = true -> forallb ok_agg (q_aggs q) = true -> q_class q t = 0 ->
     q_int_sums q t = true ->
     spec_query q t = SRows rs -> model_query q t = MRows rs.
 Print Assumptions query_correct_expression_arguments.
@@ -266,9 +266,5 @@ Example query_correct_expr_nonvacuous :
                 mkAgg FCount (EArith AAdd (ECol 2) (ELit (VInt 0))); mkAgg FMax (ECol 0)]
                [0%nat; 1%nat; 2%nat] (Some (ECmp CGt (ECol 3) (ELit (VInt 0)))) in
   forallb is_plain (q_keys q) = true /\ forallb ok_agg (q_aggs q) = true /\ q_int_sums q t = true /\
-  spec_query q t = SRows [[VNull; VInt 11; VInt 1]; [VInt 1; VInt 5; VInt 1]] /\ having_names_ok q.
-Proof.
-  cbv zeta. split; [reflexivity|]. split; [reflexivity|]. split; [vm_compute; reflexivity|]. split; [vm_compute; reflexivity|].
-  unfold having_names_ok. intros h i a Hh Hi _ Na. cbn in Hh. injection Hh as <-. cbn in Hi. destruct Hi as [<-|[]].
-  cbn in Na. injection Na as <-. split; [reflexivity|discriminate].
-Qed.
+  spec_query q t = SRows [[VNull; VInt 11; VInt 1]; [VInt 1; VInt 5; VInt 1]] /\ q_class q t = 0.
+Proof. cbv zeta. repeat split; vm_compute; reflexivity. Qed.
